@@ -269,7 +269,14 @@ DamageFails(base, ln) ==
           \* (blobs that later operations reclaimed cannot come back with a shortened log: only the
           \*  index state is required to be the prefix state, not the readability of its blobs)
           Fail(~ln.rec.res.ok \/ ln.rec.obs.idx = ex, "C10:accepted-non-prefix-state"),
-          IF ln.rec.res.ok THEN CountFails(ln.rec.obs) ELSE {}
+          IF ln.rec.res.ok THEN CountFails(ln.rec.obs) ELSE {},
+          \* BEYOND the listed properties (reported as a note, never as a violation): an accepted cut log is used - one put,
+          \* a clean restart - and the restart must succeed and show what the handle showed
+          IF "cont" \in DOMAIN ln.rec /\ ln.rec.cont.on
+          THEN LET c == ln.rec.cont IN
+               Fail(c.put.ok /\ c.reopen.ok /\ c.idx_after = c.idx_before /\ c.get_after = c.idx_after,
+                    "BEYOND:store-unusable-after-an-accepted-cut-" \o (IF ~c.put.ok THEN "put-failed" ELSE IF ~c.reopen.ok THEN "reopen-failed-" \o c.reopen.err ELSE "state-changed"))
+          ELSE {}
         }
 
 (***************************************************************************)
